@@ -266,9 +266,9 @@ PROPS["C16"] = {
     "level_note": "seven base networks of depth 3-5 (dense, conv, deconv, max-pool), at most 2 (3) connect calls, sparse identity-like integer weights (the run fails as vacuous unless the five accumulations give distinguishable outputs); a second "
                   "connection to an already-targeted layer must be rejected (keeping both is not representable in the code's data structure)",
     "rule": "one case = one Connect behaviour on a base network, evaluated per data seed under 5 accumulations; all distinct; non-trivial = at least one accepted connection",
-    "mc": [flow_mc("skip", ["{1, 2, 3, 4, 5, 6, 7}", 2, 1, 1, "{1, 2}", "FALSE"], ["{1, 2, 3, 4, 5, 6, 7}", 3, 1, 1, "{1, 2, 3}", "FALSE"]),
+    "mc": [flow_mc("skip", ["{1, 2, 3, 4, 5, 6, 7, 8}", 2, 1, 1, "{1, 2}", "FALSE"], ["{1, 2, 3, 4, 5, 6, 7, 8}", 3, 1, 1, "{1, 2, 3}", "FALSE"]),
            # the gradient theorem (finite differences in TLC) on the dense and the dense/conv network (quick) / all (thorough)
-           flow_mc("skip", ["{1, 4, 7}", 2, 1, 1, "{1}", "TRUE"], ["{1, 2, 3, 4, 5, 6, 7}", 2, 1, 1, "{1, 2}", "TRUE"])],
+           flow_mc("skip", ["{1, 4, 7}", 2, 1, 1, "{1}", "TRUE"], ["{1, 2, 3, 4, 5, 6, 7, 8}", 2, 1, 1, "{1, 2}", "TRUE"])],
     "assumptions": FLOW_ASSUME,
 }
 PROPS["C17"] = {
@@ -305,9 +305,12 @@ PROPS["C11"] = {
 # C08 inside feedback blocks: the shapes the block announces for its inner layers (read from Display) follow the size formulas
 PROPS["C08"]["mc"].append(flow_mc("fb", ["{2, 4, 7, 9, 10}", 1, 1, 2, "{1}", "FALSE"], ["{1, 2, 3, 4, 5, 6, 7, 8, 9, 10}", 1, 1, 3, "{1}", "FALSE"]))
 # skip connections across the flat <-> spatial boundary (a spatial layer directly after a dense layer stores a flat input)
-_c08_skip = flow_mc("skip", ["{2, 3, 5}", 1, 1, 1, "{1}", "FALSE"], ["{1, 2, 3, 4, 5, 6, 7}", 2, 1, 1, "{1}", "FALSE"])
+_c08_skip = flow_mc("skip", ["{2, 3, 5, 8}", 1, 1, 1, "{1}", "FALSE"], ["{1, 2, 3, 4, 5, 6, 7, 8}", 2, 1, 1, "{1}", "FALSE"])
 _c08_skip.pop("require", None)
 PROPS["C08"]["mc"].append(_c08_skip)
+# the flat <-> spatial transitions themselves: Tensor::flatten / reshape / get_triple as a state machine (ReshapeSM.tla)
+PROPS["C08"]["mc"].append({"module": "MC_C14", "consts": {"quick": {"MaxDim": 3, "MaxCount": 8, "Depth": 2},
+                                                           "thorough": {"MaxDim": 4, "MaxCount": 12, "Depth": 2}}, "workers": 8})
 
 PROPS["C18"] = {
     "level": "model_checking",
